@@ -170,9 +170,25 @@ func c36Parse(log string, root string) (done []c36Call, inflight *c36Call) {
 // c36Event maps a call to the model's event token ("" = irrelevant)
 func c36Event(c c36Call, tmpMark string, finalName string) string {
 	ok := !strings.HasPrefix(c.Ret, "-1")
-	isTmp := strings.Contains(c.Args, tmpMark)
-	// the final name itself (not a temporary derived from it) is the target of the call
-	isFinal := !isTmp && strings.Contains(c.Args, finalName)
+	_ = tmpMark
+	// a path whose last component is the final name itself / a longer name starting with it (a
+	// temporary derived from it, whatever the infix of the current source is)
+	isTmp, isFinal := false, false
+	for rest := c.Args; ; {
+		i := strings.Index(rest, finalName)
+		if i < 0 {
+			break
+		}
+		rest = rest[i+len(finalName):]
+		if rest == "" || strings.ContainsRune("\">,) ", rune(rest[0])) {
+			isFinal = true
+		} else {
+			isTmp = true
+		}
+	}
+	if isTmp {
+		isFinal = false
+	}
 	switch c.Name {
 	case "openat", "open", "creat":
 		if (strings.Contains(c.Args, "O_CREAT") || c.Name == "creat") && isTmp {
@@ -380,6 +396,7 @@ func streamC36(h *H) {
 				h.Case("kill")
 				h.Rec("setup", typ, Itoa(size), B(premk), prevKind, n, Itoa(k))
 				h.Rec("data", Itoa(size), hex.EncodeToString(sum[:8]))
+				h.Rec("name", HexS(name))
 				var evs []string
 				for _, c := range done {
 					if e := c36Event(c, "-tmp-", name); e != "" {
@@ -413,7 +430,7 @@ func streamC36(h *H) {
 					role := "other"
 					if e.name == name {
 						role = "final"
-					} else if strings.HasPrefix(e.name, name+"-tmp-") {
+					} else if strings.HasPrefix(e.name, name) && len(e.name) > len(name) {
 						role = "tmp"
 					}
 					h.Rec("file", role, HexS(e.name), I64(e.size), e.sum, B(perr == nil))
